@@ -53,7 +53,7 @@ def expansion_bound(text: str) -> int:
         return 10 ** 9
 
 
-def check_text(out: Outcome, text: str, sub, assemble=True):
+def check_text(out: Outcome, text: str, sub, assemble=True, known_bound=None):
     from a816.parse.mzparser import MZParser
     from a816.program import Program
 
@@ -69,7 +69,7 @@ def check_text(out: Outcome, text: str, sub, assemble=True):
         nt = True
         assemble = False  # the assembly would repeat exactly this scan / parse and stop at the same error
     if assemble:
-        bound = expansion_bound(text)
+        bound = known_bound if known_bound is not None else expansion_bound(text)
         if bound > 5000:
             out.labels.append("assembly-skipped:explicit-loop-counts")
             return nt
@@ -116,6 +116,12 @@ def structured_inputs(d: int):
                 body = f".if {cond} {{\n{body}}}\n"
             ins.append((f"unbounded-recursion:{cond}:{calls}", org + ".macro m_u() {\n.db 1\n" + body + "}\nm_u()\n"))
     ins.append(("mutual-recursion", org + ".macro m_p() {\n.if k_out {\nm_q()\nm_q()\n}\n}\n.macro m_q() {\nm_p()\n}\n.macro m_p() {\n.if k_out {\nm_q()\nm_q()\n}\n}\nm_p()\n"))
+    # loop bodies that write the loop variable or the names its bounds were taken from: the iteration count stays the
+    # one the bounds gave when the loop was reached
+    n_it = max(2, min(d, 6))
+    for j, body in enumerate(("i_v := 0", "i_v := i_v - 1", "i_v := i_v & 1", "i_v = 0", "{\ni_v := 0\n}", ".if 1 {\ni_v := 0\n}", ".if i_v {\ni_v := i_v - 1\n}",
+                              "k_hi := k_hi + 1", "k_lo := k_lo - 1", "i_v := k_hi - 2", ".for i_v := 0, 2 {\ni_v := 0\n}", "m_w(i_v)")):
+        ins.append((f"loop-writes-its-variable:{j}:bound={3 * n_it * 8}", org + f"k_lo := 0\nk_hi := {n_it}\n.macro m_w(p) {{\np := 0\ni_v := 0\n}}\n.for i_v := k_lo, k_hi {{\n{body}\n.db i_v\n}}\n"))
     ins.append(("struct-with-comments", org + ".struct st_x {\n" + "; c\n" * d + "}\n"))
     ins.append(("struct-empty", org + ".struct st_y {\n}\n.struct st_z {\n/* c */\n}\n"))
     ins.append(("struct-unclosed", org + ".struct st_w {\n; c\n" * min(d, 8)))
@@ -298,7 +304,8 @@ def run_case(case) -> Outcome:
     if t == "structured":
         nt = 0
         for name, text in structured_inputs(case["depth"]):
-            if check_text(out, text, {"t": "text", "text": text}):
+            kb = int(name.rsplit("bound=", 1)[1]) if "bound=" in name else None  # iteration count known by construction
+            if check_text(out, text, {"t": "text", "text": text, "known_bound": kb}, known_bound=kb):
                 nt += 1
             nt += 0
         out.nontrivial = len(structured_inputs(case["depth"]))
@@ -307,7 +314,7 @@ def run_case(case) -> Outcome:
         return out
     if t == "text":
         text = case["text"]
-        nt = check_text(out, text, case)
+        nt = check_text(out, text, case, known_bound=case.get("known_bound"))
         out.nontrivial = bool(nt) or _open_ended(text)
         out.labels.append("soup")
         if _open_ended(text):
